@@ -20,6 +20,7 @@ type c14Proc struct {
 	Exe, Arg, Env, Dir, Restart, Desc string
 	Period, Signal                    int
 	Dep, Disabled                     bool
+	Cmd                               bool // defined with command: (run through the shell) instead of entrypoint:
 	DepCond                           string
 	Threshold, Max, ShutTimeout       int
 }
@@ -71,7 +72,11 @@ func (p c14Proc) change(field string) c14Proc {
 
 func (p c14Proc) yaml(name string) string {
 	var b strings.Builder
-	fmt.Fprintf(&b, "  %s:\n    entrypoint: [%q, %q]\n    description: %q\n    working_dir: %q\n    environment:\n      - '%s'\n", name, p.Exe, p.Arg, p.Desc, p.Dir, p.Env)
+	if p.Cmd {
+		fmt.Fprintf(&b, "  %s:\n    command: %q\n    description: %q\n    working_dir: %q\n    environment:\n      - '%s'\n", name, p.Exe+" "+p.Arg, p.Desc, p.Dir, p.Env)
+	} else {
+		fmt.Fprintf(&b, "  %s:\n    entrypoint: [%q, %q]\n    description: %q\n    working_dir: %q\n    environment:\n      - '%s'\n", name, p.Exe, p.Arg, p.Desc, p.Dir, p.Env)
+	}
 	fmt.Fprintf(&b, "    availability:\n      restart: %q\n      max_restarts: %d\n    shutdown:\n      signal: %d\n      timeout_seconds: %d\n", p.Restart, p.Max, p.Signal, p.ShutTimeout)
 	fmt.Fprintf(&b, "    readiness_probe:\n      exec:\n        command: \"probe-%s\"\n      period_seconds: %d\n      failure_threshold: %d\n", name, p.Period, p.Threshold)
 	if p.Dep {
@@ -366,6 +371,17 @@ func c14Scenarios(tier string) []*Scenario {
 	}
 	// a process added as disabled: true is part of the configuration (listed, startable), just not launched;
 	// the same update sent again changes nothing
+	// process-compose run a -- extra arguments: launching the main process with its extra arguments leaves its
+	// configuration as it was, so an update that restates the configuration changes nothing
+	for _, form := range []string{"command", "entrypoint"} {
+		for _, u := range []map[string]string{{"a": "same", "b": "same"}, {"a": "same", "b": "changed:args"}} {
+			a := c14Base()
+			a.Cmd = form == "command"
+			mk("main-args:"+form+":a="+u["a"]+",b="+u["b"], []map[string]string{u}, map[string]c14Proc{"a": a, "b": c14Base()})
+			sm := scs[len(scs)-1]
+			sm.Main, sm.MainArgs = "a", []string{"30", "x y"}
+		}
+	}
 	mk("same,same,+c-disabled", []map[string]string{{"a": "same", "b": "same", "c": "added-disabled"}}, init)
 	mk("seq:+c-disabled;same", []map[string]string{{"c": "added-disabled"}, {}}, init)
 	// the same, through the REST route itself (POST /project), for a project with a replicated process (its
